@@ -669,14 +669,13 @@ func (w *world) renew() {
 	t0 := time.Now()
 	defer func() { tRenew += time.Since(t0) }()
 	if w.fw != nil {
-		w.storeCalls += w.fw.Store.Total()
-		w.fw.Close()
-		_ = os.RemoveAll(w.fw.Dir)
+		w.fw.FreshStore()
+	} else {
+		w.fw = lib.NewFilerWorld(w.r, w.kind, w.bm)
+		w.installRunaway()
 	}
-	w.fw = lib.NewFilerWorld(w.r, w.kind, w.bm)
 	w.model = make(tree)
 	w.sinceRenew = 0
-	w.installRunaway()
 }
 
 func newWorld(r *lib.Run, kind string, bm *lib.BlobMaster, uni []string) *world {
@@ -768,7 +767,7 @@ func runBatch(r *lib.Run, mode, kind string, shard, nshards, sampleOneIn int) {
 		}
 		r.Note("exhaustive_spaces", spaceNotes)
 		r.Note("ops_by_kind_class_outcome", w.stats)
-		r.Count("store_calls", w.storeCalls+w.fw.Store.Total())
+		r.Count("store_calls", w.fw.Store.Total())
 	case "rand":
 		uni := universeRand()
 		w := newWorld(r, kind, bm, uni)
@@ -808,7 +807,7 @@ func runBatch(r *lib.Run, mode, kind string, shard, nshards, sampleOneIn int) {
 			}
 		}
 		r.Note("ops_by_kind_class_outcome", w.stats)
-		r.Count("store_calls", w.storeCalls+w.fw.Store.Total())
+		r.Count("store_calls", w.fw.Store.Total())
 	}
 	pprof.StopCPUProfile()
 	r.Note("harness_time_ms", map[string]int64{"exec": tExec.Milliseconds(), "dump": tDump.Milliseconds(), "reset": tReset.Milliseconds(), "renew": tRenew.Milliseconds()})
